@@ -76,6 +76,9 @@ theorem clearRecvBufferLoop_keep (inFlight : Nat) : ∀ (l : List REvent) (acc :
 @[simp] theorem view_recvOpen (s : Streams) (id : Nat) (b : Bool) : view (s.recvOpen id b).1 = view s := by
   unfold Streams.recvOpen; view_auto
 
+@[simp] theorem view_notifyPushIfRecvEnded (s : Streams) (id : Nat) : view (s.notifyPushIfRecvEnded id) = view s := by
+  unfold Streams.notifyPushIfRecvEnded; split <;> simp
+
 @[simp] theorem view_recvRecvTrailers (s : Streams) (id : Nat) (h : HeadersIn) : view (s.recvRecvTrailers id h).1 = view s := by
   unfold Streams.recvRecvTrailers; view_auto
 
@@ -90,7 +93,7 @@ def recvDataEos (s : Streams) (id : Nat) (eos : Bool) : Streams × Option PErr :
 
 /-- the delivery part of `Recv::recv_data` (a copy) -/
 def recvDataDeliver (s : Streams) (id : Nat) (payload : Bytes) (eos : Bool) (flowLen sz : Nat) : Streams × Except PErr Unit :=
-  if !(s.stream id).isRecv then (s.releaseConnectionCapacity sz false, .ok ())
+  if !(s.stream id).isRecv then ((s.releaseConnectionCapacity sz false).notifyPushIfRecvEnded id, .ok ())
   else
     match (s.stream id).recvFlow.sendData sz with
     | (fl, .error (.reason r)) => (s.modStream id fun st => { st with recvFlow := fl }, .error (PErr.libraryGoAway r))
@@ -102,7 +105,7 @@ def recvDataDeliver (s : Streams) (id : Nat) (payload : Bytes) (eos : Bool) (flo
       if payload.isEmpty && !eos then (s, .ok ())
       else
         let s := s.modStream id fun st => { st with pendingRecv := st.pendingRecv ++ [.data payload (!eos)] }
-        (s.modStreamW id Stream.notifyRecv, .ok ())
+        ((s.modStreamW id Stream.notifyRecv).notifyPushIfRecvEnded id, .ok ())
 
 /-- `Recv::recv_data` after its `assert!(sz <= MAX_WINDOW_SIZE)` (a copy of the model's code) -/
 def recvDataCore (s : Streams) (id : Nat) (payload : Bytes) (eos : Bool) (flowLen : Nat) : Streams × Except PErr Unit :=
@@ -282,6 +285,13 @@ theorem view_recvGoAway (s : Streams) (id : Nat) : view (s.recvGoAway id) = { vi
     view (s.recvPollInformational id t).1 = view s := by
   unfold Streams.recvPollInformational; view_auto
 
+@[simp] theorem view_recvPollPushed (s : Streams) (id : Nat) (t : String) : view (s.recvPollPushed id t).1 = view s := by
+  unfold Streams.recvPollPushed
+  split
+  · dsimp only
+    split <;> simp
+  · (repeat' split) <;> simp
+
 -- ===================================================================== recv_headers
 
 /-- the counting step of `Recv::recv_headers`: an initial HEADERS on a stream that is not counted yet
@@ -325,10 +335,11 @@ def recvHeadersQueue (s : Streams) (id : Nat) (h : HeadersIn) (isInitial : Bool)
       | .ok method uri =>
         let s := s.modStream id fun st => { st with pendingRecv := st.pendingRecv ++ [.request method uri h.fields] }
         let s := s.modStreamW id Stream.notifyRecv
+        let s := s.notifyPushIfRecvEnded id
         ((s.qPush .pendingAccept id).1, .ok)
     else if !h.isInformational then
       let s := s.modStream id fun st => { st with pendingRecv := st.pendingRecv ++ [.headers status h.fields] }
-      (s.modStreamW id Stream.notifyRecv, .ok)
+      ((s.modStreamW id Stream.notifyRecv).notifyPushIfRecvEnded id, .ok)
     else
       let s := s.modStream id fun st => { st with pendingRecv := st.pendingRecv ++ [.informational status h.fields] }
       (s.modStreamW id Stream.notifyRecv, .ok)
